@@ -607,8 +607,8 @@ def c06(run):
            "every method present in the registry, unlisted banks and banks with unimplemented methods; "
            "verdicts compared with the independent reference of the published rules; non-trivial = distinct "
            "(method, account) pair",
-      note="37 of 39 methods proved equal to the published rule for all 10^10 accounts; 24 and 68 by "
-           "differential check only; int() of whole account strings is modelled for digit strings")
+      note="all 39 methods proved equal to the published rule for all 10^10 accounts (live_de_total: no "
+           "foreign exception); int() of whole account strings is modelled for digit strings")
 def c07(run):
     import natref
     from realops import checksum, registry_lines
